@@ -560,6 +560,8 @@ package pfcp
 //@   ensures [termr]  forall j int :: 0 <= j && j < len(usars) ==> usars[j].USARTrigger.Flags & report.USAR_TRIG_TERMR != 0
 //@   ensures [wf]     lnodeWF(n)
 //@   ensures [frameok]   forall t *Sess :: old(allocated(t)) && old(sessOK(t)) && old(live(n, lSeid) ==> t != n.sess[lSeid-1]) && t.LocalID != lSeid ==> sessOK(t)
+//@   ensures [stay]   old(lnodeWF(n)) ==> (forall i int :: 0 <= i && i < len(n.sess) && n.sess[i] != nil ==> old(allocated(n.sess[i])) && n.sess[i] == old(n.sess[i]) &&
+//@                       n.sess[i].LocalID != lSeid && old(live(n, lSeid) ==> n.sess[i] != n.sess[lSeid-1]))
 //@   ensures [node]   old(nodeInv(n)) ==> nodeInv(n)
 //@   modifies n.free, n.sess[_], DP, CREATED,
 //@            n.sess[lSeid-1].FARIDs[_], n.sess[lSeid-1].QERIDs[_], n.sess[lSeid-1].BARIDs[_], n.sess[lSeid-1].PDRIDs[_],
@@ -567,10 +569,11 @@ package pfcp
 //@   reveal sessOK
 //@   reveal lnodeWF
 //@   reveal nodeInv allSessOK dpLive
-//@   uses frameok for node hiding sessOK
+//@   uses wf slots stay frameok for node hiding sessOK
 //@   serves C01 C04 C05 C07 C12 C13
 //@   cases zero: lSeid == 0 | low: 0 < lSeid && lSeid < 1<<63 | edge: lSeid == 1<<63 | hi: lSeid > 1<<63
 //@   after call Close:
+//@     assert [notfree] forall j int :: 0 <= j && j < len(n.free) ==> n.free[j] != lSeid
 //@     set CREATED := restrict(CREATED, forall k RuleKey :: k.seid != lSeid)
 
 //@ func NewRemoteNode(id string, addr net.Addr, local *LocalNode, driver forwarder.Driver, log *logrus.Entry) (n *RemoteNode)
@@ -869,14 +872,23 @@ package pfcp
 //@   ensures [node]     req.NodeID != nil && ok(req.NodeID.NodeID()) ==> val(req.NodeID.NodeID()) in s.rnodes &&
 //@                        s.rnodes[val(req.NodeID.NodeID())].addr == addr && fresh(s.rnodes[val(req.NodeID.NodeID())]) && len(s.rnodes[val(req.NodeID.NodeID())].sess) == 0
 //@   modifies *
-//@   reveal srvWF
-//@   reveal nodesWF
-//@   reveal linked
-//@   reveal nodeInv lnodeWF allSessOK dpLive registered
+//@   reveal nodesWF linked registered
 //@   flag perreturn
 //@   cases known: val(req.NodeID.NodeID()) in s.rnodes | unknown: !(val(req.NodeID.NodeID()) in s.rnodes)
 //@   serves C01 C04 C05 C08 C07
+//@   at call Reset:
+//@     unfold nodeInv(s.lnode)
+//@   after call Reset:
+//@     fold nodeInv(s.lnode)
+//@     assert [rs] forall i int :: 0 <= i && i < len(s.lnode.sess) && s.lnode.sess[i] != nil ==> s.lnode.sess[i] == old(s.lnode.sess[i]) && !((uint64(i) + 1) in old(recv.sess))
+//@     assert [rn] forall i int :: 0 <= i && i < len(s.lnode.sess) && s.lnode.sess[i] != nil ==> s.lnode.sess[i].rnode != recv && s.lnode.sess[i].rnode.ID != rnodeid
+//@   at call NewNode:
+//@     unfold srvWF(s)
 //@   at call NewAssociationSetupResponse:
+//@     assert [ln]     forall i int :: 0 <= i && i < len(s.lnode.sess) && s.lnode.sess[i] != nil ==> s.lnode.sess[i].rnode != s.rnodes[rnodeid] && s.lnode.sess[i].rnode.ID != rnodeid
+//@     assert [nodes]  nodesWF(s)
+//@     assert [linked] linked(s)
+//@     assert [reg]    registered(s)
 //@     assert [seq]      arg0 == req.Header.SequenceNumber
 //@     assert [cause]    len(arg1) == 3 && arg1[1] == ie.NewCause(ie.CauseRequestAccepted)
 //@     assert [recovery] arg1[2] == ie.NewRecoveryTimeStamp(s.recoveryTime)
@@ -891,17 +903,21 @@ package pfcp
 //@   ensures [others] forall id uint64 :: id != hdrSEID(req.Header) ==> (live(s.lnode, id) == old(live(s.lnode, id))) && (old(live(s.lnode, id)) ==> s.lnode.sess[id-1] == old(s.lnode.sess[id-1]))
 //@   ensures [isol]   forall k RuleKey :: k.seid != hdrSEID(req.Header) ==> ((k in DP) == (k in old(DP)))
 //@   modifies *
-//@   reveal nodeInv allSessOK dpLive linked lnodeWF registered
+//@   reveal linked registered
 //@   flag perreturn
 //@   serves C01 C04 C05 C08 C11 C12 C07
 //@   loop range(usars):
 //@     modifies sess.URRIDs[_], whole(sess.URRIDs[_].SEQN), rsp.UsageReport, r.*
-//@     invariant [inv]   urrsOK(sess) && rsp != nil
+//@     invariant [inv]   urrsOK(sess) && rsp != nil && nodeInv(s.lnode)
+//@   at call Sess:
+//@     unfold nodeInv(s.lnode)
+//@   after call Sess:
+//@     unfold allSessOK(s.lnode)
+//@   at call DeleteSess:
+//@     unfold lnodeWF(s.lnode)
 //@   after call DeleteSess:
 //@     assert [mine] old(lSeid in sess.rnode.sess) && sess.rnode.local == s.lnode
 //@     assert [l1] forall i int :: 0 <= i && i < len(s.lnode.sess) && s.lnode.sess[i] != nil ==> uint64(i) + 1 != lSeid && s.lnode.sess[i] == old(s.lnode.sess[i])
-//@     assert [l2] forall i int :: 0 <= i && i < len(s.lnode.sess) && s.lnode.sess[i] != nil ==> old(allocated(s.lnode.sess[i])) && old(sessOK(s.lnode.sess[i])) && s.lnode.sess[i].LocalID != lSeid
-//@     assert [lemma] allSessOK(s.lnode)
 //@     assert [l3] forall i int :: 0 <= i && i < len(s.lnode.sess) && s.lnode.sess[i] != nil ==> s.lnode.sess[i] != sess && s.lnode.sess[i].URRIDs != sess.URRIDs
 //@   at call NewSessionDeletionResponse#1:
 //@     assert [nfseid]  arg2 == 0 && arg3 == req.Header.SequenceNumber
@@ -916,6 +932,12 @@ package pfcp
 //@   at call IEsWithinSessDelRsp:
 //@     assert [seqn]  recv.URSEQN + 1 == sess.URRIDs[recv.URRID].SEQN
 //@     assert [termr] recv.USARTrigger.Flags & report.USAR_TRIG_TERMR != 0
+//@   at call delete:
+//@     unfold nodeInv(s.lnode)
+//@     unfold allSessOK(s.lnode)
+//@   after call delete:
+//@     fold allSessOK(s.lnode)
+//@     fold nodeInv(s.lnode)
 
 // Session Report Response: a response with SEID 0 in its header means the peer no longer knows the session the
 // report was about; exactly the session whose CP-SEID and peer address match the answered request is removed.
